@@ -1,6 +1,7 @@
 import Model.Cache
 import Model.Numscript.Spec
 import Model.Numscript.VM
+import Lemmas.NumRun
 import Generated.Opcodes
 /-! C08 — compiled programs do what the source says.
 `Spec.run` is the definition of "what the source text says".  What is proved here (growing):
@@ -36,6 +37,87 @@ theorem opcode_in_table (i : Instr) : (i.name, i.opcode) ∈ Num.opcodeTable := 
 needed balances and sources (or to the same refusal) — no hidden state, whatever was compiled before -/
 theorem compile_deterministic (P : Script) (r₁ r₂ : Except CompileErr Program)
     (h₁ : compile P = r₁) (h₂ : compile P = r₂) : r₁ = r₂ := h₁ ▸ h₂ ▸ rfl
+
+/-! #### compiler correctness
+
+The FULL statement (not yet proved in this generality; tied by the differentials of `checks/c08.py`):
+
+```
+theorem compile_correct (P : Script) (prog : Program) (hc : compile P = .ok prog) (req : Request) (store : Store) :
+    (VM.run prog req store).map VM.Result.obs = Outcome.ofExcept ((Spec.run P req store).map Result.obs)
+-- obs = (postings, txMeta, acctMeta): for every program the language accepts, every variable map and every store,
+-- running the compiled bytecode on the VM gives exactly what the source says (same postings, same metadata,
+-- or the same class of error) and never panics.
+```
+
+What IS proved, for the FRAGMENT `Script.frag`:
+statements `send [A n | A *] (source = S, destination = @x | $x)` with `S` built from accounts (with or without
+`allowing overdraft up to …` / `allowing unbounded overdraft`, `@world` included), `max … from S` and in-order
+lists `{ S … }`; `save … from`, `set_tx_meta`, `set_account_meta`, `print`, `fail`; no portion literal inside the
+expressions (a de-duplicated portion constant is equal only up to `ratEq`), lists shorter than 2^64.
+
+`compile_correct_partial`: after the VM's resolution stage (`SetVarsFromJSON`, `ResolveResources`,
+`ResolveBalances`) succeeded, `VM.run` of the compiled program is `Spec`'s statement semantics `evalStmts`
+(the very function `Spec.run` uses) under the environment read back from the resolved resource table, followed
+by `Spec.run`'s metadata merge.  Not covered by the theorem: source and destination allotments, ordered
+destinations with `max`/`remaining`/`kept`; and the equivalence of the two RESOLUTION stages (`Spec.prepare` /
+`initBal` vs `SetVarsFromJSON`/`ResolveResources`/`ResolveBalances`) — both rest on the differentials. -/
+
+/-- **compiled code does what the source says (fragment)** — frame lemmas `expr_ok`, `source_ok`,
+`takeFromSource_ok`, `destAcct_ok`, `stmt_ok` of `Lemmas/Num{Frame,Stmt}.lean`: running `code(src)` from stack `S`
+and balances `B` ends with stack `funding :: S` and balances `B'`, nothing below `S` touched, and equals
+`Spec.evalSource`; likewise for destinations and whole statements. -/
+theorem compile_correct_partial (P : Script) (prog : Program) (hc : compile P = .ok prog) (hfr : P.frag)
+    (req : Request) (store : Store) (vars : List (String × BVal)) (R : VM.Resolved) (vals : List BVal) (B : VM.Balances)
+    (hv : VM.setVarsFromJSON prog req.vars = .ok vars) (hr : VM.resolveResources prog vars store = .ok R)
+    (hb : VM.resolveBalances prog R store = .ok (vals, B)) :
+    match evalStmts (envOf prog.resources vals) P.stmts { st := { bal := B.bal, postings := [] } } with
+    | .error er => VM.run prog req store = .error er
+    | .ok F =>
+      if req.metadata.any (fun kv => (F.txMeta.map (fun t => (t.1, valToString t.2))).any (fun t => t.1 = kv.1))
+      then VM.run prog req store = .error .metaOverride
+      else ∃ r, VM.run prog req store = .ok r ∧ r.postings = F.st.postings ∧
+        r.txMeta = F.txMeta.map (fun t => (t.1, valToString t.2)) ++ req.metadata ∧
+        r.acctMeta = F.acctMeta.map (fun m => (m.1, m.2.1, valToString m.2.2)) ∧
+        r.prints = F.prints.map BVal.ofVal := by
+  obtain ⟨cx, hE, hok⟩ := run_setup hc hv hr hb
+  have hrel : Rel B.accts B.keys ({ balances := B } : VM.Machine) { st := { bal := B.bal, postings := [] } } :=
+    ⟨rfl, rfl, rfl, rfl, rfl, rfl, rfl, hok⟩
+  have hex := execute_correct hc hfr cx hE _ _ hrel
+  simp only [VM.run, hv, hr, hb]
+  cases hev : evalStmts (envOf prog.resources vals) P.stmts { st := { bal := B.bal, postings := [] } } with
+  | error er =>
+    rw [hev] at hex
+    simp only [hex]
+  | ok F =>
+    rw [hev] at hex
+    obtain ⟨m', hx, hr'⟩ := hex
+    simp only [hx, hr'.txMeta, hr'.acctMeta, renderTxMeta_map, renderAcctMeta_map]
+    split
+    · rfl
+    · exact ⟨_, rfl, hr'.postings, rfl, rfl, hr'.prints⟩
+
+/-! non-vacuity: a program of the fragment compiles (so the hypotheses of `compile_correct_partial` are
+satisfiable); richer members of the fragment (ordered capped sources with overdraft and a `@world` fallback, saves,
+metadata) compile too — `decide` cannot run the compiler on strings in reasonable time, the bytecode-equality
+differential shows them -/
+example : ∃ prog, compile ⟨[], [.print (.add (.num 1) (.num 2)), .fail]⟩ = .ok prog ∧
+    prog.instrs = [.apush 0, .apush 1, .iadd, .print, .fail] := by
+  simp [compile, visitVars, visitVarList, visitStmts, visitStmt, visitExpr, litOut, allocRes, findConstant, appendResource,
+    isConstEq, valueEquals]
+
+example : Script.frag ⟨[], [.print (.add (.num 1) (.num 2)), .fail]⟩ :=
+  ⟨by simp, by intro s hs; simp at hs; rcases hs with rfl | rfl <;> rfl⟩
+
+example : Script.frag
+    ⟨[⟨.account, "dst", .none⟩],
+     [.send (.mon (.mon (.asset "USD") 100))
+        (.src (.inorder (.cons (.maxed (.mon (.asset "USD") 10) (.acct (.acct "a") (.upTo (.mon (.asset "USD") 5))))
+          (.cons (.acct (.acct "world") .none) .nil))))
+        (.acct (.var "dst")),
+      .saveMon (.mon (.asset "USD") 1) (.acct "a"),
+      .setTxMeta "k" (.add (.num 1) (.num 2))]⟩ :=
+  ⟨by simp, by intro s hs; simp at hs; rcases hs with rfl | rfl | rfl <;> rfl⟩
 
 /-- invariant of the cache: every entry is the compilation of some text with that digest -/
 def CacheInv {Text Key Prog : Type} (H : Text → Key) (compile : Text → Option Prog) (c : Cache.Store Key Prog) : Prop :=
